@@ -104,6 +104,12 @@ ALL_FEATURES = [
     "generic_alias_param",  # a generic function whose comptime parameter is typed by a type alias
                             # global (MyI :: i64;), called from a comptime global
     "generic_enum_units",   # generic enum types with two payload-less variants, joined in an `if`
+    "weak_locals",          # comptime globals whose blocks assign to locals that still have a weak
+                            # ({uint}) type, then read another global, then give the local a
+                            # strong type: what was learnt before the read must survive it
+    "rec_lambdas",          # recursive functions that declare a local function / lambda *after*
+                            # their recursive call
+    "type_tables",          # comptime globals holding several `type` values in one aggregate
     "indirect_refs",        # variants may name a definition of another file *through a third file*:
                             # imp1.imp2.name
 ]
@@ -2075,6 +2081,82 @@ class _Gen:
         self.p.add(it)
         self.int_fns.append(name)
 
+    def mk_weak_locals(self):
+        r = self.rnd
+        if not self.int_consts:
+            return self.mk_const()
+        name = self.fresh("k")
+        it = Item(name, "comptime")
+        o = r.choice(self.int_consts)
+        it.deps.add(o)
+        shape = r.choice(["quick_assign", "quick_assign", "assign", "union_block"])
+        big = r.choice(["2000000000 + 2000000000", "3000000000", "2147483647 + 9"])
+        if shape == "quick_assign":
+            it.render = lambda ref: (
+                "%s :: comptime { l := 5; l += %s; y := %s; l *= i64.(3); (l + y) %% 997 };"
+                % (name, big, ref(o)))
+        elif shape == "assign":
+            it.render = lambda ref: (
+                "%s :: comptime { l := 5; l = %s; y := %s; m : i64 = l; (m + y) %% 997 };"
+                % (name, big, ref(o)))
+        else:
+            it.render = lambda ref: (
+                "%s :: comptime { c := 3; r : str!u64 = `blk: { if c == 3 { break \"no\"; } break c * 2; }; "
+                "y := %s; y %% 997 };" % (name, ref(o)))
+        it.uses = lambda ref, tmp: ["emit(%s);" % ref(name)]
+        self.p.add(it)
+        self.int_consts.append(name)
+
+    def mk_rec_lambda(self):
+        r = self.rnd
+        name = self.fresh("rl")
+        it = Item(name, "fn")
+        it.is_function = True
+        it.recursive = True
+        base = self.lit(1, 9)
+        c = self._int_anchor(it)
+        kind = r.choice(["nested", "lambda"])
+
+        def render(ref):
+            if kind == "nested":
+                loc = "helper :: (q: i64) -> i64 { (q * 2 + %s) %% 997 };" % c(ref)
+            else:
+                loc = "helper := (q: i64) -> i64 { (q + %s) %% 997 };" % c(ref)
+            return ("%s :: (a: i64) -> i64 {\n    if a <= 0 { %s } else {\n        rest := %s(a - 1);\n"
+                    "        %s\n        (rest + helper(a)) %% 997\n    }\n}" % (name, base, name, loc))
+
+        it.render = render
+        arg = r.randint(0, 5)
+        it.uses = lambda ref, tmp: ["emit(%s(%d));" % (ref(name), arg)]
+        self.p.add(it)
+        self.int_fns.append(name)
+
+    def mk_type_table(self):
+        r = self.rnd
+        if getattr(self, "wrapper_struct", None) is None:
+            return self.mk_type_field()
+        wr = self.wrapper_struct
+        while len(self.structs) + len(self.distincts) < 3:
+            self._plain_int_struct()
+        cands = sorted(self.structs) + sorted(self.distincts)
+        picks = r.sample(cands, r.randint(2, min(4, len(cands))))
+        name = self.fresh("tt")
+        it = Item(name, "comptime_wrapper")
+        it.deps.add(wr)
+        it.deps |= set(picks)
+        it.render = lambda ref: "%s :: comptime { %s.[%s] };" % (
+            name, ref(wr), ", ".join("%s.{ t = %s, n = %d }" % (ref(wr), ref(t), i) for i, t in enumerate(picks)))
+
+        def uses(ref, tmp):
+            out = []
+            for i, t in enumerate(picks):
+                out.append("if %s[%d].t == %s { emit(%d); } else { emit(0); }" % (ref(name), i, ref(t), 300 + i))
+            out.append("if %s[0].t == %s { emit(1); } else { emit(0); }" % (ref(name), ref(picks[-1])))
+            return out
+
+        it.uses = uses
+        self.p.add(it)
+
     def build(self):
         self.add_prelude()
         r = self.rnd
@@ -2168,6 +2250,12 @@ class _Gen:
             menu.append(("generic_alias_param", self.mk_generic_alias_param, 1))
         if "generic_enum_units" in f:
             menu.append(("generic_enum_units", self.mk_generic_enum_units, 2))
+        if "weak_locals" in f:
+            menu.append(("weak_locals", self.mk_weak_locals, 2))
+        if "rec_lambdas" in f:
+            menu.append(("rec_lambda", self.mk_rec_lambda, 1))
+        if "type_tables" in f and ("structs" in f or "distinct" in f):
+            menu.append(("type_table", self.mk_type_table, 2))
         if "untyped_consts" in f:
             menu.append(("untyped_const", self.mk_untyped_const, 2))
         if "const_arrays" in f:
